@@ -1,4 +1,5 @@
 ---- MODULE Gen_diamond ----
 EXTENDS Gen, MC_diamond
 mcScriptTamper == << <<"build", "">>, <<"edit", "p", "J">>, <<"del", "q">>, <<"build", "">> >>
+CexErrors == Cex("C04_ErrorsExact", C04_ErrorsExact)
 ====
